@@ -51,7 +51,9 @@ func refcaps() []cap {
 		{"schema change target AGGREGATE (v4)", T(n, n, y, y, y, y), func(v p.ProtocolVersion) bool { return v.SupportsSchemaChangeTarget(p.SchemaChangeTargetAggregate) }},
 		{"topology change NEW_NODE", T(y, y, y, y, y, y), func(v p.ProtocolVersion) bool { return v.SupportsTopologyChangeType(p.TopologyChangeTypeNewNode) }},
 		{"topology change REMOVED_NODE", T(y, y, y, y, y, y), func(v p.ProtocolVersion) bool { return v.SupportsTopologyChangeType(p.TopologyChangeTypeRemovedNode) }},
-		{"DSE revise CANCEL_CONTINUOUS_PAGING", T(n, n, n, n, y, y), func(v p.ProtocolVersion) bool { return v.SupportsDseRevisionType(p.DseRevisionTypeCancelContinuousPaging) }},
+		{"DSE revise CANCEL_CONTINUOUS_PAGING", T(n, n, n, n, y, y), func(v p.ProtocolVersion) bool {
+			return v.SupportsDseRevisionType(p.DseRevisionTypeCancelContinuousPaging)
+		}},
 		{"DSE revise MORE_CONTINUOUS_PAGES (DSE v2)", T(n, n, n, n, n, y), func(v p.ProtocolVersion) bool { return v.SupportsDseRevisionType(p.DseRevisionTypeMoreContinuousPages) }},
 		{"modern framing (v5 only)", T(n, n, n, y, n, n), func(v p.ProtocolVersion) bool { return v.SupportsModernFramingLayout() }},
 		{"unset values (v4)", T(n, n, y, y, y, y), func(v p.ProtocolVersion) bool { return v.SupportsUnsetValues() }},
